@@ -92,6 +92,15 @@ def sweep(tier="quick", seed=0, unsupported=()):
 
 
 def replay(contract, label, model, note=""):
+    if contract.startswith("LIF[setters_vs_constructor]"):
+        from . import c14
+
+        for B0, B1 in ((1, 3), (2, 4), (3, 1)):
+            for warm in (5, 0):
+                f = c14.neuron_case(B0, B1, 1.0, 1.0, warm)
+                if f:
+                    return {"reproduced": True, "failure": f, "concrete": f["input"]}
+        return {"reproduced": False, "search": {"points_tried": 6}}
     from fractions import Fraction
 
     def g(k, d):
